@@ -1,5 +1,5 @@
 (* C16 - the System Z ranking object. *)
-From InfOCF Require Import Core Tol SysZ Kz Form Model Spec Diag Ocf ThmZocf.
+From InfOCF Require Import Core Tol SysZ Kz Form Model Spec Diag Ocf ThmZocf ThmZocfExt.
 From InfOCFProps Require Import Ex.
 
 (* the object's recursion from the top layer computes the Z-rank of C02 *)
@@ -32,6 +32,19 @@ Theorem C16_acceptance_is_system_z : forall n P q, existsb (ante q) (worlds n) =
    | None, _ => false | Some _, None => true | Some a, Some b => a <? b end) = z_spec (worlds n) P q.
 Proof. exact object_accept_is_z. Qed.
 Print Assumptions C16_acceptance_is_system_z.
+
+(* extended mode: for a query whose antecedent has a feasible model, acceptance by the object (least ranks over ALL worlds, the
+   infeasible ones at the top rank) is the extended System Z answer; and every conditional outside the infinity layer is accepted *)
+Theorem C16_acceptance_extended : forall n fin0 Cinf0 q, existsb (ante q) (Wf (worlds n) (fin0 ++ [Cinf0])) = true ->
+  (match minl (map (zr n (fin0 ++ [Cinf0])) (sat_indices n (FAnd (cante q) (ccons q)))),
+         minl (map (zr n (fin0 ++ [Cinf0])) (sat_indices n (FAnd (cante q) (FNot (ccons q))))) with
+   | None, _ => false | Some _, None => true | Some a, Some b => a <? b end) = ext_spec (worlds n) (fin0 ++ [Cinf0]) q z_spec.
+Proof. exact object_accept_ext_indices. Qed.
+Print Assumptions C16_acceptance_extended.
+Theorem C16_accepts_finite_layers : forall n fin0 Cinf0 D c, part_ext n D = Some (fin0 ++ [Cinf0]) -> In (ac c) (concat fin0) ->
+  obj_accept n fin0 Cinf0 c = true.
+Proof. exact object_accepts_finite_layers. Qed.
+Print Assumptions C16_accepts_finite_layers.
 
 Example birds_object : (match zocf_partition 4 None [] birds with Some P => map snd (zrun 4 P (cache0 4) [ORank 5; OFrank (v 1); OAccept q_wp]) | None => [] end)
    = [VNat 2; VOpt (Some 1); VBool false]
